@@ -273,8 +273,47 @@ def _model_chunk(vecs):
     return diff
 
 
+CSS_CHARS = {"{", "}", ":", ";", "(", ")", "DQ", "'", "BS", "/", "*", "a", " ", "CR", "-", ",", "+"}
+CSS_FRAGS = {"a{", "}", "b:c;", "d:e", "/*", "*/", "DQ", "'", "BS", "CR", "(", ")", ";", "@m (x:y){", " ", "NL", ":", "::", "f", "{", "- ", "-", ",", "+", "u(", "&:h{", "b: ;"}
+
+
+def _css_model_chunk(vecs):
+    from emmet import css_matcher as cm
+    from emmet.css_matcher.scan import scan as cscan
+    from emmet.css_matcher.parse import split_value
+    diff = []
+    for v in vecs:
+        src = v['s']
+        try:
+            evs = []
+            cscan(src, lambda t, s, e, d: evs.append([t, s, e, d]) or None)
+            if evs != [[e['t'], e['s'], e['e'], e['d']] for e in v['evs']]:
+                diff.append(('css scan events', src))
+                continue
+            if [list(r) for r in split_value(src)] != v['split']:
+                diff.append(('css split_value', src))
+            for k, row in enumerate(v['at']):
+                pos = k - 1
+                m = cm.match(src, pos)
+                got = None if m is None else [m.type, m.start, m.end, m.body_start, m.body_end]
+                exp = None if not row['m'] else [row['m'][0][f] for f in ('t', 's', 'e', 'bs', 'be')]
+                if got != exp:
+                    diff.append(('css match', src))
+                if [list(r) for r in cm.balanced_outward(src, pos)] != row['o']:
+                    diff.append(('css balanced_outward', src))
+                if [list(r) for r in cm.balanced_inward(src, pos)] != row['i']:
+                    diff.append(('css balanced_inward', src))
+        except Exception as ex:
+            diff.append(('code raised %s' % type(ex).__name__, src))
+    return diff
+
+
 def _model_comparison(out, quick):
-    insts = [('html-model-characters', 'HtmlScanMC', dict(constants={'Frags': SCAN_CHARS, 'MaxFrag': 3 if quick else 4})),
+    insts = [('css-model-characters', 'CssScanMC', dict(constants={'Frags': CSS_CHARS, 'MaxFrag': 3 if quick else 4})),
+             ('css-model-fragments', 'CssScanMC', dict(constants={'Frags': CSS_FRAGS, 'MaxFrag': 2 if quick else 3})),
+             ('css-model-fragments-simulated', 'CssScanMC', dict(constants={'Frags': CSS_FRAGS, 'MaxFrag': 9},
+                                                                simulate=4 if quick else 60, depth=10, seed=out.seed + 6))]
+    insts += [('html-model-characters', 'HtmlScanMC', dict(constants={'Frags': SCAN_CHARS, 'MaxFrag': 3 if quick else 4})),
              ('html-model-fragments', 'HtmlScanMC', dict(constants={'Frags': SCAN_FRAGS, 'MaxFrag': 2 if quick else 3})),
              ('html-model-fragments-simulated', 'HtmlScanMC', dict(constants={'Frags': SCAN_FRAGS, 'MaxFrag': 9},
                                                                   simulate=4 if quick else 60, depth=10, seed=out.seed + 5))]
@@ -293,11 +332,11 @@ def _model_comparison(out, quick):
             vecs = common.sample(vecs, 2500 if quick else 60000, out.seed, key=lambda v: v['s'])
         elif out.exhaustive is not None:
             out.exhaustive = out.exhaustive and r.exhaustive
-        diff = common.pool_map(_model_chunk, vecs, chunk=500)
+        diff = common.pool_map(_css_model_chunk if module == 'CssScanMC' else _model_chunk, vecs, chunk=500)
         fam = {}
         for what, src in diff:
             fam.setdefault(what, set()).add(src)
-        out.add_tlc(name, r, strings=len(vecs), with_tags=sum(1 for v in vecs if v['evs']),
+        out.add_tlc(name, r, strings=len(vecs), with_events=sum(1 for v in vecs if v['evs']),
                     model_differs_from_code={k: {'count': len(v), 'examples': sorted(v, key=len)[:5]} for k, v in fam.items()})
         out.evaluations += sum((len(v['s']) + 3) * 6 + 2 for v in vecs)
         for k, v in fam.items():
